@@ -196,11 +196,11 @@ RenderEv ==
 
 FragEv ==
   /\ IsEv("Frag")
-  /\ LET pred == RenderFragment(Cfg, E.tree, imps)
+  /\ LET pred == IF E.skip THEN <<<<>>, <<>>>> ELSE RenderFragment(Cfg, E.tree, imps)
          refs == SeqSet(E.refs)
          bare == SeqSet(E.bare)
          obsT == TableFn(E.table)
-     IN /\ (pred[2] # obsT) => Report("DRIFT", "table")
+     IN /\ (~E.skip /\ pred[2] # obsT) => Report("DRIFT", "table")
         /\ MonRefs(<<>>, refs, bare, FALSE)
         /\ (E.status = "panic") => Report("C02", "panic in fragment render")
         /\ (E.status = "nil" /\ ~E.parses) => Report("C02", "fragment: nil but the output does not parse")
